@@ -71,6 +71,8 @@ def call(e, st, fr, name, av, ins):
         for i in range(n):
             x = sd.get(i)
             if x is not None:
+                if x[2] == 0 and x[1] > 1 and i + x[1] > n:
+                    x = (x[0], -x[1], 0)
                 d[i] = x
         dealloc(e, st, p, old, al)
         return Ptr(o.id, 0)
@@ -259,10 +261,13 @@ def llvm_intrinsic(e, st, fr, name, av, ins):
         do = st.wobj(do)
         dd = do.data
         doff = d.off
+        e.demote(dd, doff)
         for i, x in enumerate(tmp):
             if x is None:
                 dd.pop(doff + i, None)
             else:
+                if x[2] == 0 and x[1] > 1 and i + x[1] > n:
+                    x = (x[0], -x[1], 0)  # the copy cuts this cell: its head must not vouch for the missing bytes
                 dd[doff + i] = x
         return None
     if name.startswith('llvm.memset'):
@@ -275,6 +280,7 @@ def llvm_intrinsic(e, st, fr, name, av, ins):
             d = e.i2p(st, d)
         do = st.wobj(do)
         dd = do.data
+        e.demote(dd, d.off)
         cell = (b, 1, 0)
         for i in range(n):
             dd[d.off + i] = cell
